@@ -134,7 +134,9 @@ func init() {
 	g1Groups["C10"] = []string{"C10", "C10rounds"}
 
 	g1Specs["C11rounds"] = func(tier string) *G1Spec {
-		alpha := []*BatchSpec{c11Alpha[0], c11Alpha[2], c11Alpha[3], c11Alpha[6], c11Alpha[7], c11Alpha[1], c11Alpha[5]}
+		alpha := []*BatchSpec{c11Alpha[0], c11Alpha[2], c11Alpha[3], c11Alpha[6], c11Alpha[7], c11Alpha[1], c11Alpha[5],
+			// deletion of grandchild A/X alone: a round without data that only changes the children of a child
+			{Kids: kid("A", &BatchSpec{DelKids: []string{"X"}})}}
 		// extra steps: child A deleted and recreated within one persistence round - with another key next to a new
 		// sibling B, and empty (a round that carries no data at all, only a change of incarnation)
 		return asRounds(g1Specs["C11"](tier), tier, alpha, false, 0.25, "B2/B5/M/Pb/Pe", "B2/B6/M/Pb/Pe")
